@@ -273,6 +273,7 @@ def run(chk):
     p_contributors(chk)
     p_get_contributors(chk)
     p_handle_new_basepath(chk)
+    bounded(chk)
     chk.assumptions += [
         "api.api_request_limit >= 1 (configuration precondition; the property quantifies over 1..50)",
         "list items are abstracted to integer ids; set/list operations on them follow the library contracts",
@@ -451,3 +452,133 @@ def replay_basepath(model, obligation):
             return True, {"registered_before": k, "interleaving": "a later image-info batch registers File:Late.png while get_siteinfo_for is suspended",
                           "result": "File:Late.png is neither scheduled nor registered any more: its description page and contributors never reach the archive"}, "lost_registration"
     return False, {"cases": 3}, None
+
+
+# ----------------------------------------------------------------------------- bounded: contributor lookups under every answer order; page shapes
+def contributors_schedule_search(n_titles=5, limit=2, max_orders=400):
+    """Every title handed to _add_to_titles_pending_contributor_lookup gets its contributors stored, whatever the
+    order in which the API answers concurrent requests: real Fetcher methods on real gevent greenlets, a stub API
+    whose answers are released one at a time by a director, all release orders (the next answer to release is
+    chosen among the pending ones at every step, titles are queued in between), then the real final flush."""
+    import itertools
+    from collections import defaultdict
+    import gevent
+    from gevent.event import Event
+    from mwlib.network import fetch
+
+    class IA:
+        def __init__(self, a):
+            self.a = a
+
+        def get_authors(self):
+            return self.a
+
+    def run(choices):
+        pending_calls = []      # [titles, event]
+
+        class Api:
+            api_request_limit = limit
+            request_counter = 0
+            baseurl = "http://x/"
+
+            def get_contributors(self, titles):
+                ev = Event()
+                call = [list(titles), ev]
+                pending_calls.append(call)
+                ev.wait()
+                return {t: IA([t + "-author"]) for t in call[0]}
+
+        class Out:
+            def __init__(self):
+                self.stored = {}
+
+            def set_db_key(self, name, key, value):
+                self.stored[key] = value
+        f = fetch.Fetcher.__new__(fetch.Fetcher)
+        f.fsout = Out()
+        f.title_mapping = {}
+        f.titles_pending_contributor_lookup = defaultdict(list)
+        f.authors_batch = []
+        api = Api()
+        f.api = api
+        titles = [f"P{i}" for i in range(1, n_titles + 1)]
+        queue = list(titles)
+        greenlets = []
+        pos = 0
+        steps = 0
+        # at every step: either queue the next title or release one of the pending answers, as `choices` says
+        while (queue or pending_calls) and steps < 60:
+            steps += 1
+            options = (["queue"] if queue else []) + [("release", k) for k in range(len(pending_calls))]
+            c = options[choices[pos] % len(options)] if pos < len(choices) else options[0]
+            pos += 1
+            if c == "queue":
+                t = queue.pop(0)
+                greenlets.append(gevent.spawn(f._add_to_titles_pending_contributor_lookup, t, api))
+            else:
+                pending_calls.pop(c[1])[1].set()
+            gevent.sleep(0)
+            gevent.sleep(0)
+        g = gevent.spawn(f.lookup_contributors_for_remaining_titles)
+        for _ in range(20):
+            gevent.sleep(0)
+            while pending_calls:
+                pending_calls.pop(0)[1].set()
+                gevent.sleep(0)
+        gevent.joinall(greenlets + [g], timeout=2)
+        missing = [t for t in titles if t not in f.fsout.stored]
+        return missing
+    n = 0
+    for length in (6, 8, 10):
+        for choices in itertools.product(range(3), repeat=length):
+            n += 1
+            if n > max_orders:
+                return n, None
+            missing = run(choices)
+            if missing:
+                return n, {"detail": f"contributors of {missing} never stored", "witness": {"titles": n_titles, "api_request_limit": limit, "schedule_choices": list(choices),
+                                                                                               "missing": missing}, "class": "contributors-lost-under-schedule"}
+    return n, None
+
+
+def page_shapes_search():
+    """workflow.collect_page_data on every list of <= 3 API page entries of 5 kinds (missing page without pageid, page
+    with revisions + images + templates, page with revisions only, page with images only, empty entry): never raises;
+    revids / images / templates are the unions over ALL entries; title2latest gets the newest revision per title"""
+    import itertools
+    from mwlib.network import workflow
+    kinds = [
+        lambda i: {"ns": 0, "title": f"Missing{i}", "missing": ""},
+        lambda i: {"pageid": 10 + i, "title": f"A{i}", "revisions": [{"revid": 100 + i}, {"revid": 50 + i}], "images": [{"title": f"File:I{i}.png"}], "templates": [{"title": f"Template:T{i}"}]},
+        lambda i: {"pageid": 20 + i, "title": f"B{i}", "revisions": [{"revid": 200 + i}]},
+        lambda i: {"pageid": 30 + i, "title": f"C{i}", "images": [{"title": f"File:J{i}.png"}, {"ns": 6}]},
+        lambda i: {},
+    ]
+    n = 0
+    for k in range(0, 4):
+        for combo in itertools.product(range(len(kinds)), repeat=k):
+            pages = [kinds[c](i) for i, c in enumerate(combo)]
+            want_rev = {r["revid"] for p in pages for r in p.get("revisions", []) if r.get("revid")}
+            want_img = {e["title"] for p in pages for e in p.get("images", []) if e.get("title")}
+            want_tpl = {e["title"] for p in pages for e in p.get("templates", []) if e.get("title")}
+            want_latest = {p["title"]: max(r["revid"] for r in p["revisions"]) for p in pages if p.get("revisions")}
+            n += 1
+            t2l = {}
+            try:
+                got = workflow.collect_page_data([dict(p) for p in pages], t2l)
+            except Exception as e:  # noqa: BLE001
+                return n, {"detail": f"collect_page_data raised {type(e).__name__}: {e} on {pages}", "witness": {"pages": pages}, "class": "collect_page_data:raise"}
+            if (set(got[0]), set(got[1]), set(got[2])) != (want_rev, want_img, want_tpl) or t2l != want_latest:
+                return n, {"detail": f"collect_page_data({pages}) = {got}, {t2l}", "witness": {"pages": pages}, "class": "collect_page_data:value"}
+    return n, None
+
+
+def bounded(chk):
+    n1, f1 = page_shapes_search()
+    chk.bounded_result("collect_page_data_on_page_shapes", n1, n1, True,
+                       "all lists of <= 3 API page entries of 5 kinds (missing page, full page, revisions only, images only, empty): no exception, unions over all entries, newest revision per title",
+                       [f1] if f1 else [])
+    n2, f2 = contributors_schedule_search(max_orders=400 if chk.tier == "quick" else 6000)
+    chk.bounded_result("contributor_lookups_under_answer_orders", n2, n2, False,
+                       "5 titles, api_request_limit 2, real Fetcher methods on gevent greenlets, stub API whose concurrent answers are released in every order of the first 400 (quick) / 6000 (thorough) schedules of length 6..10, then the real final flush: every title's contributors are stored",
+                       [f2] if f2 else [])
